@@ -20,7 +20,8 @@ From SK Require Import Model.Base Model.Seek Model.SinceSeek Model.Lines
      Model.Task Model.Stats Model.Gzip Model.Sequence Model.Run
      Spec.Lines Spec.C04 Spec.Task Spec.Stats Spec.Sequence Spec.Run
      Proofs.Lines Proofs.TaskFlush Proofs.TaskLoop Proofs.Stats
-     Proofs.Compose Proofs.Gzip Proofs.Sequence
+     Proofs.Compose Proofs.Gzip Proofs.Sequence Proofs.SeqShift
+     Proofs.TaskGating
      Proofs.RunBridge Proofs.RunStream Proofs.Run.
 Import ListNotations.
 Open Scope Z_scope.
@@ -232,5 +233,111 @@ Section Seq.
       etransitivity;
         [apply f_equal; exact (seq_results_of_def ds lines d bs Hk Hd Hc E)|].
       apply sequence_exact_report.
+  Qed.
+
+  (* ============ constrained sequence definitions (C07 x C03, full) ======
+     The handler of a definition with constraints of its own sees the lines
+     from its activation line on, ORIGINAL numbers kept: its results are the
+     machine started at line number k on the lines from k on. *)
+  Lemma active_from_le cs : forall lines : list line,
+    (active_from line ocon cs lines <= length lines)%nat.
+  Proof.
+    induction lines as [|l r IH]; cbn [active_from length]; [lia|].
+    destruct (all_pass line ocon cs l); lia.
+  Qed.
+
+  Lemma seq_results_of_def_from ds lines d bs :
+    keys_ok q_key ds -> In d ds ->
+    uniform line ocon (q_cons d) lines ->
+    exec ds lines = TaskOk bs ->
+    let k := active_from line ocon (q_cons d) lines in
+    map snd (filter (fun r : qresult => fst r =? q_key d) (concat bs)) =
+    seq_run_from (q_shape d) (Z.of_nat k)
+                 (map (qclass (q_key d)) (skipn k lines)).
+  Proof.
+    intros Hk Hd Hu E k.
+    destruct (execute_exact line qdef sstate qresult q_key q_cons ocon init
+                hstep seq_hpost MAX NBUF ds lines HMAX) as (bs' & E' & Hem & _).
+    unfold seq_execute in E. rewrite E in E'. inversion E'; subst bs'.
+    rewrite Hem. unfold emitted.
+    change (fun r : qresult => fst r =? q_key d)
+      with (keyb qresult fst (q_key d)).
+    rewrite filter_app.
+    destruct (own_constraint_generic line qdef sstate qresult q_key q_cons
+                ocon init hstep fst ds lines d hstep_keyed Hk Hd Hu)
+      as [Hres Hfin].
+    unfold visible_spec in Hres, Hfin. fold k in Hres, Hfin.
+    rewrite enum_skipn in Hres, Hfin.
+    replace (1 + Z.of_nat k) with (Z.of_nat k + 1) in Hres, Hfin by lia.
+    rewrite hrun_is_seq_loop in Hres, Hfin. cbn [fst snd] in Hres, Hfin.
+    rewrite Hres. cbn [app].
+    unfold seq_hpost.
+    rewrite (hpost_filter
+               (fun x => seq_eof (q_shape (fst x)) (snd x)
+                                 (Z.of_nat (length lines)))
+               _ d _ (final_keys_nodup ds lines) Hfin).
+    rewrite map_map. cbn [snd fst]. rewrite map_id.
+    unfold seq_run_from.
+    pose proof (seq_loop_ln (q_shape d)
+                  (map (qclass (q_key d)) (skipn k lines))
+                  init_state (Z.of_nat k)) as Hln.
+    destruct (seq_loop (q_shape d) init_state (Z.of_nat k)
+                       (map (qclass (q_key d)) (skipn k lines))) as [st n].
+    cbn [fst snd] in *. rewrite Hln, map_length, skipn_length.
+    pose proof (active_from_le (q_cons d) lines) as Hle. fold k in Hle.
+    replace (Z.of_nat k + Z.of_nat (length lines - k))
+      with (Z.of_nat (length lines)) by lia.
+    reflexivity.
+  Qed.
+
+  (* THE COMPOSITION, every definition: a definition (with or without
+     constraints of its own, C07's uniformity hypothesis) reports the
+     sections of the specification on the lines from its activation line
+     on, line numbers moved back to the file's numbering *)
+  Theorem sequence_run_exact_constrained prev f since restrictions ds :
+    wf f -> keys_ok q_key ds ->
+    (seeks since restrictions (map q_key ds) = true ->
+     seek_hyps H A L W tsw (stream f)) ->
+    let lines := searched W tsw line classify since restrictions
+                          (map q_key ds) (stream f) in
+    exists coll,
+      run_sequence H A L W tsw line classify ocon MAX NBUF qclass prev f
+                   since restrictions ds =
+      RunOk coll (mkStats (Stats.lenZ ds) [Stats.lenZ ds] (Stats.lenZ lines)
+                          1 1 (Stats.lenZ coll)) /\
+      forall d, In d ds -> uniform line ocon (q_cons d) lines ->
+        let k := active_from line ocon (q_cons d) lines in
+        seq_report (q_key d) coll =
+        map (map (shift_item (Z.of_nat k)))
+            (spec_report (q_shape d)
+                         (map (qclass (q_key d)) (skipn k lines))).
+  Proof.
+    intros Hwf Hk Hs lines. unfold run_sequence, run_one.
+    rewrite (execute_dispatch H A L W tsw line classify HH HA qresult
+               (seq_ids ds) (exec ds) (seq_exec_nil ds) since restrictions f
+               Hwf).
+    assert (Hids : restricted restrictions (seq_ids ds) =
+                   restricted restrictions (map q_key ds))
+      by (apply restricted_ext, seq_ids_keys).
+    assert (Hs' : seeks since restrictions (seq_ids ds) = true ->
+                  seek_hyps H A L W tsw (stream f))
+      by (unfold seeks in *; rewrite Hids; exact Hs).
+    rewrite (stream_searched H A L W tsw line classify HH HA qresult
+               (seq_ids ds) (exec ds) since restrictions (stream f) HL Hs').
+    cbv zeta.
+    assert (El : searched W tsw line classify since restrictions (seq_ids ds)
+                          (stream f) = lines)
+      by (unfold lines, searched, start_byte; rewrite Hids; reflexivity).
+    rewrite El.
+    destruct (task_counts_its_collection line qdef sstate qresult q_key
+                q_cons ocon init hstep seq_hpost MAX NBUF HMAX ds lines)
+      as (bs & E & _ & _).
+    change (exec ds lines = TaskOk bs) in E. rewrite E. cbn [lift collected].
+    exists (concat bs). split.
+    - rewrite single_file_stats. reflexivity.
+    - intros d Hd Hu. unfold seq_report.
+      etransitivity;
+        [apply f_equal; exact (seq_results_of_def_from ds lines d bs Hk Hd Hu E)|].
+      apply sequence_exact_report_from.
   Qed.
 End Seq.
